@@ -174,6 +174,7 @@ def emit_obligations(prefix, want=("reciprocal", "partial", "sym")):
     hv = any(getattr(c_, "emit_havoc", False) for c_ in (c1, c2))
     for o in obs:
         if ".emit." in o.name or "kept_faces" in o.name: o.havoc = hv
+        if ".sym." in o.name and o.replay is None and not o.expect_sat: o.replay = replay_sym
     fns = [{"fn": E.u.label + " / cell-level prefix; let half_space; let should_construct_face", "slice_sha": E.sha}]
     if S: fns.append({"fn": S.u.label + " / match arm `=> continue`", "slice_sha": S.sha})
     return obs, fns
@@ -306,6 +307,34 @@ def replay_mask_search():
     return {"reproduced": False, "searched": n_runs, "what": "all masks over a 4-generator 1D and a 5-generator 2D set, reflective and periodic"}
 
 
+def replay_sym(ob=None):
+    """The symmetric face integrals against the stored faces of the same integrator (public API): same (left, right, shift) list, for small
+    1D/2D/3D sets, periodic and not, every mask."""
+    import itertools
+    from ..runner import replay_requests
+    sets = [(1, [[0.1, 0, 0], [0.35, 0, 0], [0.6, 0, 0], [0.9, 0, 0]]), (2, [[0.2, 0.2, 0], [0.7, 0.3, 0], [0.4, 0.8, 0], [0.8, 0.75, 0]]),
+            (3, [[0.2, 0.3, 0.4], [0.7, 0.6, 0.8], [0.5, 0.1, 0.9]])]
+    key = lambda f: (f["left"], f["right"], None if f["shift"] is None else tuple(round(x, 9) for x in f["shift"]))
+    reqs = []
+    for dim, gens in sets:
+        for per in (False, True):
+            for m in itertools.product([True, False], repeat=len(gens)):
+                if any(m): reqs.append({"op": "sym_vs_stored", "gens": gens, "anchor": [0, 0, 0], "width": [1, 1, 1], "dim": dim, "periodic": per, "mask": list(m)})
+    for rq, a in zip(reqs, replay_requests(reqs, timeout=600)):
+        if "sym" not in a: return {"reproduced": True, "request": rq, "real": a, "what": "integrator fails"}
+        if [key(f) for f in a["sym"]] != [key(f) for f in a["stored"]]:
+            return {"reproduced": True, "request": rq, "symmetric_integrals": [key(f) for f in a["sym"]], "stored_faces": [key(f) for f in a["stored"]],
+                    "what": "the symmetric face integrals do not correspond one-to-one, in order, with the stored face list"}
+    return {"reproduced": False, "searched": len(reqs)}
+
+
+def replay_shift_mapping(ob=None):
+    """Complete periodic candidate sequences on the real crate, including boxes of width 2^-60 (a shift is absent iff it is exactly zero)."""
+    from .c17 import traversal_probe
+    n, bad = traversal_probe(20260930, 18, tiny=True)
+    return {"reproduced": bad is not None, "searched": n, "mismatch": bad}
+
+
 def shift_mapping_obligations(prefix):
     """rtree_nn::wrapping_nn_iter's closure: query shift sigma -> None iff sigma == 0, else Some(-sigma)."""
     u = Unit("rtree_nn.rs", "wrapping_nn_iter")
@@ -323,9 +352,9 @@ def shift_mapping_obligations(prefix):
     if not (isinstance(r, symex.Tup) and len(r.e) == 2 and isinstance(r.e[1], Opt)): raise extract.Undecided("closure result is not (id, Option<shift>)")
     rid, rs = r.e
     zero = And(*[Eq(s, R0) for s in sig])
-    obs = [Obligation(prefix + ".shift.none_iff_query_shift_zero", ctx.assume, Eq(rs.some, Not(zero)), u.label),
-           Obligation(prefix + ".shift.reported_shift_is_minus_query_shift", ctx.assume + [Not(zero)], veq(rs.val, Vec([-s for s in sig])) if rs.val is not None else FALSE, u.label),
-           Obligation(prefix + ".shift.reports_generator_id", ctx.assume, Eq(rid, g.f["id"]), u.label)]
+    obs = [Obligation(prefix + ".shift.none_iff_query_shift_zero", ctx.assume, Eq(rs.some, Not(zero)), u.label, replay=replay_shift_mapping),
+           Obligation(prefix + ".shift.reported_shift_is_minus_query_shift", ctx.assume + [Not(zero)], veq(rs.val, Vec([-s for s in sig])) if rs.val is not None else FALSE, u.label, replay=replay_shift_mapping),
+           Obligation(prefix + ".shift.reports_generator_id", ctx.assume, Eq(rid, g.f["id"]), u.label, replay=replay_shift_mapping)]
     return obs, [{"fn": u.label + " / map closure", "slice_sha": extract.sha(extract.text_of(u.tree, cl))}]
 
 
